@@ -93,4 +93,93 @@ theorem lastNegotiated_none (evs : List Ev) (w : Int) (h : ∀ e ∈ evs, ∀ u,
     | setXmode x => exact ih hes
     | call c => exact ih hes
 
+/-! ### queueing link: what is transmitted later is what each call emitted -/
+
+/-- content of the queued objects if the link transmitted now -/
+def pending (l : LinkSt) : List Packet := l.queue.filterMap (fun i => l.heap[i]?)
+
+def LinkSt.WF (l : LinkSt) : Prop := ∀ i ∈ l.queue, i < l.heap.length
+
+theorem filterMap_congr' {α β} {f g : α → Option β} : ∀ {l : List α}, (∀ x ∈ l, f x = g x) → l.filterMap f = l.filterMap g
+  | [], _ => rfl
+  | x :: xs, h => by
+    simp only [List.filterMap_cons, h x (List.mem_cons_self ..)]
+    rw [filterMap_congr' (fun y hy => h y (List.mem_cons_of_mem _ hy))]
+
+theorem enqueue_spec : ∀ (ps : List Packet) (l : LinkSt), l.WF →
+    (l.enqueue ps).wire = l.wire ∧ pending (l.enqueue ps) = pending l ++ ps ∧ (l.enqueue ps).WF ∧
+    l.heap.length ≤ (l.enqueue ps).heap.length ∧ (∀ i, i < l.heap.length → (l.enqueue ps).heap[i]? = l.heap[i]?)
+  | [], l, h => ⟨rfl, by simp [LinkSt.enqueue], h, Nat.le_refl _, fun _ _ => rfl⟩
+  | p :: ps, l, h => by
+    let l1 : LinkSt := { l with heap := l.heap ++ [p], queue := l.queue ++ [l.heap.length] }
+    have hwf1 : l1.WF := by
+      intro i hi
+      simp only [l1, List.mem_append, List.mem_singleton] at hi
+      simp only [l1, List.length_append, List.length_cons, List.length_nil]
+      rcases hi with hi | rfl
+      · have := h i hi; omega
+      · omega
+    have hp1 : pending l1 = pending l ++ [p] := by
+      simp only [pending, l1, List.filterMap_append]
+      congr 1
+      · exact filterMap_congr' (fun i hi => List.getElem?_append_left (h i hi))
+      · simp
+    obtain ⟨hw, hp, hwf, hlen, hkeep⟩ := enqueue_spec ps l1 hwf1
+    have hl1 : l1.heap.length = l.heap.length + 1 := by simp [l1]
+    refine ⟨hw, ?_, hwf, by show l.heap.length ≤ (l1.enqueue ps).heap.length; omega, ?_⟩
+    · show pending (l1.enqueue ps) = _
+      rw [hp, hp1, List.append_assoc]; rfl
+    · intro i hi
+      show (l1.enqueue ps).heap[i]? = _
+      rw [hkeep i (by omega)]
+      exact List.getElem?_append_left hi
+
+theorem transmit_spec (l : LinkSt) : l.transmit.wire = l.wire ++ pending l ∧ pending l.transmit = [] ∧ l.transmit.WF ∧
+    l.transmit.heap = l.heap :=
+  ⟨rfl, rfl, by intro i hi; simp [LinkSt.transmit] at hi, rfl⟩
+
+/-- invariant of every schedule: frames already on the wire followed by the present content of the queued objects are
+exactly the packets the calls emitted, in call order -/
+theorem runL_inv : ∀ (evs : List LEv) (s : Objs) (l : LinkSt), l.WF →
+    (runL (s, l) evs).1 = stateAfter s (apiEvents evs) ∧ (runL (s, l) evs).2.WF ∧
+    (runL (s, l) evs).2.wire ++ pending (runL (s, l) evs).2 = l.wire ++ pending l ++ emitted (run s (apiEvents evs)) ∧
+    (∀ i, i < l.heap.length → (runL (s, l) evs).2.heap[i]? = l.heap[i]?)
+  | [], s, l, h => ⟨rfl, h, by simp [runL, apiEvents, run, emitted], fun _ _ => rfl⟩
+  | .transmit :: es, s, l, h => by
+    obtain ⟨hw, hp, hwf, hh⟩ := transmit_spec l
+    obtain ⟨i1, i2, i3, i4⟩ := runL_inv es s l.transmit hwf
+    have hcons : runL (s, l) (.transmit :: es) = runL (s, l.transmit) es := rfl
+    rw [hcons]
+    refine ⟨i1, i2, ?_, ?_⟩
+    · rw [i3, hw, hp]; simp [apiEvents]
+    · intro i hi
+      rw [i4 i (by rw [hh]; exact hi), hh]
+  | .api e :: es, s, l, h => by
+    cases e with
+    | setXmode b => exact runL_inv es _ l h
+    | negotiated v => exact runL_inv es _ l h
+    | call c =>
+      cases hr : emit s.version (c.withXmode s.xmode) with
+      | error err =>
+        have hstep : stepL (s, l) (.api (.call c)) = (s, l) := by simp [stepL, step, hr]
+        obtain ⟨i1, i2, i3, i4⟩ := runL_inv es s l h
+        have hcons : runL (s, l) (.api (.call c) :: es) = runL (s, l) es := by
+          show runL (stepL (s, l) _) es = _; rw [hstep]
+        rw [hcons]
+        refine ⟨i1, i2, ?_, i4⟩
+        rw [i3]
+        simp [apiEvents, run_cons_call, emitted, hr]
+      | ok ps =>
+        have hstep : stepL (s, l) (.api (.call c)) = (s, l.enqueue ps) := by simp [stepL, step, hr]
+        obtain ⟨hw, hp, hwf, hlen, hkeep⟩ := enqueue_spec ps l h
+        obtain ⟨i1, i2, i3, i4⟩ := runL_inv es s (l.enqueue ps) hwf
+        have hcons : runL (s, l) (.api (.call c) :: es) = runL (s, l.enqueue ps) es := by
+          show runL (stepL (s, l) _) es = _; rw [hstep]
+        rw [hcons]
+        refine ⟨i1, i2, ?_, ?_⟩
+        · rw [i3, hw, hp]
+          simp [apiEvents, run_cons_call, emitted, hr, List.append_assoc]
+        · intro i hi
+          rw [i4 i (by omega), hkeep i hi]
+
 end CfVerif.C08
